@@ -266,6 +266,9 @@ def run(chk, repo):
            f"slices taken: {got17} (expected (fragment.location.start, fragment.location.end)) / concatenation order altered", key=gq.qual + '::slice', fn=gq.qual)
     chk.clauses.append('C17.i find_exon_index scans the exons in transcript order, returns the scan index of the exon equal to the reported block, stops early only past it, and raises otherwise')
     exon_scan(chk, repo, 'C17.i')
+    from rules.shared import exclusive_end_membership
+    chk.clauses.append('C17.j (R-KIND) no exclusive `.end` coordinate is tested for membership in a half-open location without the equal-ends case: the last exon of a transcript is found like any other')
+    exclusive_end_membership(chk, repo, 'C17.j', ['gtf', 'parser.CIRCexplorerParser', 'circ'], floor=1)
 
 
 def exon_scan(chk, repo, rid):
